@@ -88,8 +88,8 @@ def judge(case):
     plain = plain_alternation(defn)
     has_until = any(o.get("rrule") and o["rrule"].get("until") for o in defn["obs"])
     for o in defn["obs"]:
-        if o["from"] % 60 or o["to"] % 60 or not -12 * 3600 <= o["from"] <= 14 * 3600 or not -12 * 3600 <= o["to"] <= 14 * 3600 or o["start"][0] < 1900:
-            raise ValueError("malformed case: offsets must be whole minutes in -12h..+14h, years >= 1900 (only reachable by shrinking)")
+        if o["from"] % 60 or o["to"] % 60 or not -12 * 3600 <= o["from"] <= 14 * 3600 or not -12 * 3600 <= o["to"] <= 14 * 3600 or o["start"][0] < 1583:
+            raise ValueError("malformed case: offsets must be whole minutes in -12h..+14h, years >= 1583 (only reachable by shrinking)")
     times = [t for t, _ in Z.utc_onsets(defn)]
     if len(times) != len(set(times)) or not any(o["kind"] == "STANDARD" for o in defn["obs"]):
         raise ValueError("malformed case: coinciding onsets / no STANDARD observance")
@@ -277,7 +277,7 @@ def definitions(draw):
         delta = draw(st.sampled_from([3600, 3600, 1800, 7200, -3600]))
         south = draw(st.booleans())
         m_on, m_off = (draw(st.sampled_from([9, 10, 11])), draw(st.sampled_from([3, 4]))) if south else (draw(st.sampled_from([3, 4])), draw(st.sampled_from([9, 10, 11])))
-        y0 = draw(st.integers(1970, 2012))
+        y0 = draw(st.one_of(st.integers(1970, 2012), st.integers(1970, 2012), st.sampled_from([1601, 1850, 1899, 1900, 1901, 1969])))   # Outlook writes rules that start in 1601
         wd = draw(st.sampled_from(["SU", "SU", "SA", "FR"]))
         n_on, n_off = draw(st.sampled_from([1, 2, -1])), draw(st.sampled_from([1, -1]))
         dst = {"kind": "DAYLIGHT", "from": base, "to": base + delta, "name": "DST" if names else None,
